@@ -728,8 +728,10 @@ func genHandBundles(g *G) {
 			g.Add(Case{Req: req("noparse", encSources(fs)), Class: "unparsable", Note: "hand#" + strconv.Itoa(i), NoModel: true})
 			continue
 		}
-		g.Add(Case{Req: req("exec", encSources(fs), tree, "-", hxs(h.name), mapTokens(h.data), "nil", "-"), NT: true, Class: "hand",
-			Note: h.name + " hand#" + strconv.Itoa(i) + "\n" + h.src})
+		c := Case{Req: req("exec", encSources(fs), tree, "-", hxs(h.name), mapTokens(h.data), "nil", "-"), NT: true, Class: "hand",
+			Note: h.name + " hand#" + strconv.Itoa(i) + "\n" + h.src}
+		attachSpecExec(&c)
+		g.Add(c)
 	}
 }
 
